@@ -6,7 +6,7 @@ import math
 import random
 import sys
 
-from common import main
+from common import main, budget
 import frames
 
 TARGETS = ["car", "pedestrian", "bicycle"]
@@ -101,7 +101,7 @@ def gen(rng):
 
 def search(item, seed):
     rng = random.Random((seed or 0) * 13 + 7)
-    for _ in range(40):
+    for _ in range(budget(40)):
         case = gen(rng)
         try:
             why = check(case)
